@@ -91,6 +91,7 @@ def check(case):
             if opened:
                 raise Violation(["socket-open-after-failed-call", kind], "socket(s) %r still open after %s" % ([s.id for s in opened], where(i, call, out)))
             own = isinstance(out[1], ValueError) and any(f["fault"].get("what") == "valueerror" for f in fired)     # the TLS layer's own ValueError, passed on
+            own = own or (not isinstance(out[1], Exception) and any(f["fault"].get("what") in faultlab.INTERRUPTS for f in fired))      # an interruption delivered inside close(), passed on
             if not isinstance(out[1], (OSError, MemcacheUnexpectedCloseError)) and not own and not (call.get("may_raise") and isinstance(out[1], MemcacheError)):
                 raise Violation(["wrong-error", kind, type(out[1]).__name__], "socket-level fault surfaced as %r: %s" % (out[1], where(i, call, out)))
         else:
@@ -170,7 +171,7 @@ def sweep_cases(tier, seed):
                 evs = dry.events_by_call[t]
                 singles = []
                 for ev_kind, nth in evs:
-                    for f in faultlab.faults_for_event(ev_kind, nth):
+                    for f in faultlab.faults_for_event(ev_kind, nth, ev_kind == "close"):
                         singles.append(f)
                         calls = [dict(c) for c in base["calls"]]
                         calls[t] = dict(calls[t], faults=[f])
@@ -240,7 +241,7 @@ def refused_item_cases(tier, seed):
                     yield d
                     dry = interpret(d)
                     for ev_kind, nth in dry.events_by_call[0]:
-                        for f in faultlab.faults_for_event(ev_kind, nth):
+                        for f in faultlab.faults_for_event(ev_kind, nth, ev_kind == "close"):
                             calls = [dict(c) for c in d["calls"]]
                             calls[0] = dict(calls[0], faults=[f])
                             yield dict(d, calls=calls)
